@@ -777,6 +777,14 @@ func (o *orgCtx) idx(i ssa.Value) string {
 	if n, ok := constInt(i); ok {
 		return fmt.Sprintf("[%d]", n)
 	}
+	// len(x)-1
+	if bo, ok := i.(*ssa.BinOp); ok && bo.Op == token.SUB {
+		if k, ok := constInt(bo.Y); ok && k == 1 {
+			if c, ok := bo.X.(*ssa.Call); ok && calleeName(c) == "builtin:len" {
+				return "[len(" + o.org(c.Call.Args[0]) + ")-1]"
+			}
+		}
+	}
 	return "[*]"
 }
 
@@ -817,6 +825,11 @@ func derives(v ssa.Value, pred func(ssa.Value) bool, throughCalls bool) bool {
 			}
 			return rec(x.X, d+1)
 		case *ssa.Alloc:
+			for _, s := range storesTo(x) {
+				if rec(s.Val, d+1) {
+					return true
+				}
+			}
 			if refs := x.Referrers(); refs != nil {
 				for _, r := range *refs {
 					switch y := r.(type) {
